@@ -481,6 +481,7 @@ type bpfOb struct {
 	Name, Text, Pos, Query string
 	Instrs                int
 	Acc, Ref              string // SMT terms: the program accepts / the reference predicate holds
+	Prop                  string // property the lemma serves
 }
 
 func (w *World) bpfObligations() ([]bpfOb, []string) {
@@ -538,8 +539,12 @@ func (w *World) bpfObligations() ([]bpfOb, []string) {
 				errs = append(errs, p.name+": unexpected symbolic operand "+s)
 			}
 		}
+		// one-directional lemma for C02: every frame the reference predicate describes (hence every frame a matcher can
+		// turn into a hop) is captured; a filter that accepts more than the reference is no completeness violation
+		out = append(out, bpfOb{Name: "packets." + p.name + "#C02.captures", Text: "for all frames, lengths and configurations: reference predicate of the property statement ==> program accepts", Pos: p.pos,
+			Query: b.String() + "(assert (and " + ref + " (not " + acc + ")))\n", Instrs: len(p.ins), Acc: acc, Ref: ref, Prop: "C02"})
 		b.WriteString("(assert (not (= " + acc + " " + ref + ")))\n")
-		out = append(out, bpfOb{Name: "packets." + p.name + "#C12.exact", Text: "for all frames, lengths and configurations: program accepts <=> reference predicate of the property statement", Pos: p.pos, Query: b.String(), Instrs: len(p.ins), Acc: acc, Ref: ref})
+		out = append(out, bpfOb{Prop: "C12", Name: "packets." + p.name + "#C12.exact", Text: "for all frames, lengths and configurations: program accepts <=> reference predicate of the property statement", Pos: p.pos, Query: b.String(), Instrs: len(p.ins), Acc: acc, Ref: ref})
 	}
 	return out, errs
 }
